@@ -39,7 +39,7 @@ from numbers import Number
 import numpy as np
 # from pyparsing import Literal, CaselessLiteral, Word, Combine, Optional, \
 #     ZeroOrMore, Forward, nums, alphas, ParserElement
-from sympy import Expr, Function, Symbol, sympify
+from sympy import Dummy, Expr, Function, Symbol, sympify
 
 # pyrates internal _imports
 from pyrates.backend.computegraph import ComputeGraph, ComputeNode
@@ -843,8 +843,11 @@ def get_unique_label(label: str, labels: dict) -> tp.Tuple[str, dict]:
 def replace_in_expr(expr: Expr, replacements: dict):
     # exact structural replacement of the operands: `subs` would also rewrite e.g. `u` to `Pow**(-1)` when `1/u` is
     # replaced by the symbol `Pow`
-    expr = expr.xreplace(replacements)
-    for arg_old in replacements:
+    # ... and simultaneous: a new symbol that carries the name of another old one (`weight_source -> weight` next to
+    # `weight -> weight_v1`) must not be replaced again. Old operands first become placeholders, then the new ones.
+    placeholders = {old: Dummy() for old in replacements}
+    expr = expr.xreplace(placeholders)
+    for arg_old, dummy in placeholders.items():
         if expr.count(arg_old):
-            expr = expr.replace(arg_old, replacements[arg_old])
-    return expr
+            expr = expr.replace(arg_old, dummy)
+    return expr.xreplace({dummy: replacements[old] for old, dummy in placeholders.items()})
